@@ -72,7 +72,7 @@ def cases(ctx):
                     i += 1
     # seeded lists
     rng = ctx.rng('lists')
-    for j in range((1500 if ctx.tier == 'quick' else 30000) // ctx.nshards + 1):
+    for j in range((1500 if ctx.tier == 'quick' else 400000) // ctx.nshards + 1):
         n = rng.choice([1, 2, 3, 5, 8, 20, 60])
         lens = []
         for _ in range(n):
